@@ -2872,7 +2872,10 @@ theorem handleConnack_inv (e : Engine) (c : Connack) (hinv : Inv e) :
     · exact ⟨⟨hok, h, hD, hS⟩, .inl rfl⟩
     · split
       · exact ⟨⟨hok, h, hD, hS⟩, .inl rfl⟩
-      · simp only [hstn, ↓reduceIte] at hokr
+      · split
+        · exact ⟨⟨hok, h, hD, hS⟩, .inl rfl⟩
+        rename_i hspc
+        simp only [hstn, hspc, ↓reduceIte] at hokr
         obtain ⟨ha, hb, hpp, hpn, hnt⟩ := h.h1 hst
         let e1 : Engine := { e with state := .connected, hasConnected := true, settings := some (e.buildSettings c), connackDeadline := none, outRes := e.outRes.reset (c.topicAliasMaximum.getD 0), inRes := e.inRes.reset, pingDeadline := none, nextPing := (if (e.buildSettings c).serverKeepAlive > 0 then some (e.now + (e.buildSettings c).serverKeepAlive * 1000) else none) }
         let e2 := e1.initSlowStart
